@@ -23,9 +23,9 @@ def n8(x):
 
 class C10(Prop):
     pid = "C10"
-    lean_targets = ["M17.Props.C10"]
+    lean_targets = ["M17.Props.C10", "M17.Props.C10R"]
     theorems = ["M17.C10.gen_params_eq_spec", "M17.C10.index_eq_spec", "M17.C10.gen_index_eq_model", "M17.C10.gen_dc_eq_spec",
-                "M17.C10.gen_signs_eq_model", "M17.C10.index_perm",
+                "M17.C10.gen_signs_eq_model", "M17.C10.index_perm", "M17.C10R.interleave_mem", "M17.C10R.conditioning_roundtrip",
                 "M17.C10.deinterleave_interleave_soft", "M17.C10.interleave_deinterleave_soft", "M17.C10.interleave_soft_position",
                 "M17.C10.bytes_variant_agrees", "M17.C10.soft_deinterleave_undoes_bytes",
                 "M17.C10.rand_soft_involutive", "M17.C10.rand_bits_involutive", "M17.C10.randBytes_bit",
